@@ -4,6 +4,10 @@
     exactly must be accepted, pairs that break at least one condition by a margin >= 0.1 must be rejected
     (violations); every pair — including near misses inside the rounding tolerance, which the property
     leaves unspecified — is also sent to the Lean model `Price.validate` / `Price.exact` (disagreements).
+(1b) straddle pairs: exact systems whose compared quantities sit ON the rounding grid's half-way points (k/8, k/40, k/200) or are not
+    binary fractions (k/3, k/24), converted to floats and moved by a few ulps / 1e-12 — what the search hands to the validator.
+    They are < 1e-9 away from an exact system, so the validator must accept them (float form and exact form of the same binary
+    values; Lean: `validate_complete_within`); also sent to the Lean model.
 (2) search: `priceable(...)` for every subset of small elections, stable/plain, exhaustive on/off,
     allocation given or searched, in a worker subprocess.  Three exact oracles (harness/lp_oracle.py):
       D = a price system exists by definition, M = the MIP the library builds is feasible for that
@@ -35,13 +39,15 @@ from .. import pricebox as solverbox
 from ..core import Case, q2s
 
 RULE = ("approval elections with 1..4 voters, 1..4 projects, integer costs 1..4 (occasionally 0), integer budgets on subset sums; "
-        "validator: exact LP witnesses and Equal Shares price systems x 10 kinds of margin-0.1 breakage; search: every subset x "
+        "validator: exact LP witnesses and Equal Shares price systems x 10 kinds of margin-0.1 breakage; straddle pairs: grid-valued / LP-vertex / relaxed-optimum exact systems x 7 float perturbations (ulps, 1e-12) x float and exact form, must be accepted; search: every subset x "
         "stable/plain x exhaustive on/off + searched mode; non-trivial = >=2 voters, >=2 projects, a non-empty allocation and both "
         "verdicts occur for the election; distinct by case+allocation+flags; relaxations: the five relaxation classes x (3 feasible "
         "allocations + the searched mode on every 3rd election) x exhaustive on/off, validator on exact LP optima with beta lowered / raised")
 ASSUMPTIONS = [
     "exact-arithmetic mode; list profiles", "integer costs and integer budget (the MIP encodes 'total + c > budget' as '>= budget + 1')",
     "validator inputs are exact numbers (int / mpq); near misses closer than 0.1 are only compared with the model, never judged",
+    "straddle pairs: inputs within 1e-9 of an exact price system (floats as the search returns them, and the same values as mpq) must be "
+    "accepted: the search's own answers are of this form and the property requires them to pass the validator",
     "searched mode without exhaustiveness: the library additionally requires voter_budget * n >= budget; the oracle does the same",
     "a price system has non-negative payments and a non-negative voter budget",
     "relaxations: the variable domains declared by add_beta belong to the relaxation (beta >= -10*budget; MinAddVector: beta_c = 0 for selected "
@@ -161,18 +167,20 @@ def mes_price_system(case: Case, sat):
 # part 1: the validator
 
 
-def lib_validate(case: Case, W, b, pf, stable, exhaustive):
+def lib_validate(case: Case, W, b, pf, stable, exhaustive, raw=False):
+    """raw: hand b and the payments to the library as they are (floats, as the search returns them) instead of exact numbers"""
     from pabutools.analysis.priceability import validate_price_system
 
     inst, projs = core.build_instance(case)
     prof = core.build_profile(case, inst, projs)
-    pfl = [{projs[c]: core.to_num(p[c]) for c in case.names} for p in pf]
+    num = (lambda x: x) if raw else core.to_num
+    pfl = [{projs[c]: num(p[c]) for c in case.names} for p in pf]
     # the verdict must not depend on the reporting switch: a third of the calls (chosen by the input, so that a replay makes
     # the same choice) run with verbose=True, output discarded
     verbose = verbose_for(case, W, stable, exhaustive)
     try:
         with contextlib.redirect_stdout(io.StringIO()):
-            return bool(validate_price_system(inst, prof, [projs[c] for c in W], core.to_num(b), pfl, stable=stable, exhaustive=exhaustive,
+            return bool(validate_price_system(inst, prof, [projs[c] for c in W], num(b), pfl, stable=stable, exhaustive=exhaustive,
                                               verbose=verbose))
     except Exception as e:  # noqa: BLE001
         return "err:" + core.err_enum(e)
@@ -386,6 +394,273 @@ def round2_part(ctx, n):
         ctx.count("round2", "half" if (x * 200).denominator == 1 and (x * 100).denominator != 1 else "other")
         if out.strip() != "ok " + q2s(want):
             ctx.disagreements.append({"line": f"round2 x={q2s(x)}", "impl": q2s(want), "model": out.strip(), "what": "Price.round2 != round(mpq, 2)"})
+
+
+# ----------------------------------------------------------------------------------------------
+# part 1b: straddle pairs — price systems a floating-point error away from an exact one, with the compared quantities ON the
+# boundaries of the validator's rounding grid (x.xx5: k/8, k/40, k/200) or not representable in binary (k/3, k/24).
+# This is what `priceable` hands to the validator: vertex values of the LP (2.375, 1.125, …) returned by the solver as floats
+# an ulp off (2.3749999999999996).  An exact system perturbed by less than 1e-9 meets every condition far inside the
+# validator's tolerance (Lean: `validate_complete_within`, tolerance 1/200), so the verdict must be "accept" — in float form
+# (as the search returns it) and in exact form (the same binary values as mpq).  A `round_cmp` that rounds the two numbers
+# separately fails here: 2.375 against 2.3749999999999996 compares as 2.38 > 2.37.
+
+STRADDLE_EPS = F(1, 10**9)
+GRIDS = [F(1, 8), F(1, 8), F(1, 200), F(1, 40), F(1, 24), F(1, 3), F(1, 16)]
+STRADDLE_MODES = ("float", "ulps", "eps", "b-down", "b-down-eps", "pay-up", "dust")
+
+
+def nudge(x: float, k: int) -> float:
+    """x moved by k units in the last place"""
+    import math
+
+    for _ in range(abs(k)):
+        x = math.nextafter(x, math.inf if k > 0 else -math.inf)
+    return x
+
+
+def on_boundary(x: F) -> bool:
+    """x is a half-way point of rounding to 2 decimals (x.xx5)"""
+    y = x * 200
+    return y.denominator == 1 and y.numerator % 2 == 1
+
+
+def tighten(case: Case, W, b, pf):
+    """the same payments with the smallest voter budget that covers them (still a (stable) price system: leftovers only shrink)"""
+    return max([sum((p[c] for c in case.names), F(0)) for p in pf], default=b)
+
+
+def grid_payments(rng, case: Case, W):
+    """payments that are multiples of a grid step and cover the cost of every project of W among its supporters; or None"""
+    names = case.names
+    n = len(case.ballots)
+    g = rng.choice(GRIDS)
+    pf = [{c: F(0) for c in names} for _ in range(n)]
+    for c in W:
+        sup = [i for i in range(n) if c in case.ballots[i]]
+        if not sup:
+            return None
+        rest = case.cost[c]
+        rng.shuffle(sup)
+        for i in sup[:-1]:
+            k = rng.randint(0, int(rest / g))
+            if rng.random() < 0.35:
+                k = min(int(rest / g), int(case.cost[c] / len(sup) / g))  # near the equal split
+            pf[i][c] = k * g
+            rest -= k * g
+        pf[sup[-1]][c] = rest
+    return pf
+
+
+def grid_system(rng, case: Case, W, stable):
+    """an exact (stable) price system for W, without exhaustiveness, whose payments are multiples of a grid step, the voter budget
+    tight for the voter who spends most; or None"""
+    for _ in range(6):
+        pf = grid_payments(rng, case, W)
+        if pf is None:
+            return None
+        b = tighten(case, W, F(0), pf)
+        if rng.random() < 0.2:
+            b += rng.choice([F(1, 200), F(3, 200), F(1, 8), F(1, 40)])
+        if is_exact(conditions(case, W, b, pf, stable, False)):
+            return b, pf
+    return None
+
+
+def lhs5(case: Case, W, b, pf, stable):
+    """left-hand sides of C5 (plain) / S5 (stable) for the unselected projects: name -> exact value"""
+    names = case.names
+    Wset = set(W)
+    spent = [sum((p[c] for c in names), F(0)) for p in pf]
+    left = [b - s for s in spent]
+    mx = [max([p[c] for c in names], default=F(0)) for p in pf]
+    out = {}
+    for c in names:
+        if c in Wset:
+            continue
+        if stable:
+            out[c] = sum((max(m, l) for bal, l, m in zip(case.ballots, left, mx) if c in bal), F(0))
+        else:
+            out[c] = sum((l for bal, l in zip(case.ballots, left) if c in bal), F(0))
+    return out
+
+
+def grid_relaxed_system(rng, case: Case, W, kind):
+    """grid payments with a tight voter budget and the relaxation's beta chosen so that the relaxed stable condition holds with
+    EQUALITY for some unselected project, at a relaxed cost on the grid: (b, pf, beta, betav) or None"""
+    for _ in range(4):
+        pf = grid_payments(rng, case, W)
+        if pf is None:
+            return None
+        b = tighten(case, W, F(0), pf)
+        s5 = lhs5(case, W, b, pf, True)
+        if not s5:
+            return None
+        beta, betav = None, {}
+        if kind == "mul":
+            if any(case.cost[c] == 0 for c in s5):
+                continue
+            beta = max(v / case.cost[c] for c, v in s5.items())
+        elif kind == "add":
+            beta = max(v - case.cost[c] for c, v in s5.items())
+        elif kind == "vec":
+            betav = {c: v - case.cost[c] for c, v in s5.items()}
+        elif kind == "vecpos":
+            betav = {c: max(F(0), v - case.cost[c]) for c, v in s5.items()}
+        else:
+            beta = max(v - case.cost[c] for c, v in s5.items())
+            c0 = rng.choice(sorted(s5))
+            betav = {c0: rng.choice([F(0), F(1, 8), F(1, 200)])}
+        rc = relaxed_costs(case, kind, beta, betav)
+        if is_exact(conditions(case, W, b, pf, True, False, rc=rc)):
+            return b, pf, beta, betav
+    return None
+
+
+def perturb(rng, case: Case, W, b, pf, mode, beta=None, betav=None):
+    """the system as floats, moved by a few ulps / by 1e-12: (b, pf, beta, betav); zero payments stay exactly zero except in `dust`
+    (1e-13 on approved projects); payments for projects a voter does not approve are never touched (C1 is an exact test)"""
+    names = case.names
+    bf = float(b)
+    pff = [{c: float(p[c]) for c in names} for p in pf]
+    bef = None if beta is None else float(beta)
+    bvf = None if betav is None else {c: float(v) for c, v in betav.items()}
+    spent = [sum((p[c] for c in names), F(0)) for p in pf]
+    top = max(range(len(pf)), key=lambda i: spent[i]) if pf else None
+    if mode == "ulps":
+        bf = nudge(bf, rng.randint(-3, 3))
+        for p in pff:
+            for c in names:
+                if p[c] != 0.0:
+                    p[c] = nudge(p[c], rng.randint(-3, 3))
+        if bef is not None:
+            bef = nudge(bef, rng.randint(-3, 3))
+        if bvf is not None:
+            bvf = {c: (nudge(v, rng.randint(-3, 3)) if v != 0.0 else v) for c, v in bvf.items()}
+    elif mode == "eps":
+        bf += rng.choice([-1, 1]) * 1e-12
+        for p in pff:
+            for c in names:
+                if p[c] != 0.0:
+                    p[c] += rng.choice([-1, 1]) * 1e-12
+        if bef is not None:
+            bef += rng.choice([-1, 1]) * 1e-12
+        if bvf is not None:
+            bvf = {c: (v + rng.choice([-1, 1]) * 1e-12 if v != 0.0 else v) for c, v in bvf.items()}
+    elif mode == "b-down":
+        bf = nudge(bf, -rng.randint(1, 4))
+        if bef is not None:
+            bef = nudge(bef, -rng.randint(0, 2))
+    elif mode == "b-down-eps":
+        bf -= rng.choice([4e-16, 1e-12, 1e-10])
+        if bef is not None:
+            bef -= rng.choice([0.0, 4e-16, 1e-12])
+    elif mode == "pay-up":
+        if top is not None:
+            opts = [c for c in names if pff[top][c] != 0.0]
+            if opts:
+                c = rng.choice(opts)
+                pff[top][c] = nudge(pff[top][c], rng.randint(1, 3))
+    elif mode == "dust":
+        Wset = set(W)
+        for i, p in enumerate(pff):
+            for c in names:
+                if p[c] == 0.0 and c in case.ballots[i] and c in Wset and rng.random() < 0.5:
+                    p[c] = rng.choice([-1, 1]) * 1e-13
+    return bf, pff, bef, bvf
+
+
+def straddle_part(ctx, n_elections, lines, rlines):
+    rng = ctx.rng
+    for _ in range(n_elections):
+        case = gen_case(rng, zero_p=0.03)
+        names = case.names
+        allW = [W for W in subsets(names) if W and lp_oracle.is_feasible_alloc(case.cost, case.budget, W)]
+        rng.shuffle(allW)
+        bases = []  # (W, b, pf, stable, origin, relax kind | None, beta, betav)
+        for W in allW[:4]:
+            for stable in (False, True):
+                gs = grid_system(rng, case, W, stable)
+                if gs is not None:
+                    bases.append((W, gs[0], gs[1], stable, "grid", None, None, None))
+                ok, wit = lp_oracle.price_system_exists(names, case.cost, case.budget, case.ballots, W, stable, exhaustive=False)
+                if ok:
+                    b = tighten(case, W, wit[0], wit[1]) if rng.random() < 0.7 else wit[0]
+                    bases.append((W, b, wit[1], stable, "lp", None, None, None))
+        for W in allW[:2]:
+            kind = rng.choice(RELAX)
+            st, _, wit = lp_oracle.relaxed_optimum(names, case.cost, case.budget, case.ballots, W, kind, exhaustive=False)
+            if st == "optimal":
+                # the optimum of the relaxation: the relaxed stable condition is TIGHT for some project, at a fractional relaxed cost
+                b = tighten(case, W, wit["b"], wit["pf"]) if rng.random() < 0.5 else wit["b"]
+                bases.append((W, b, wit["pf"], True, "relax-lp", kind, wit["beta"], dict(wit["betav"])))
+            kind = rng.choice(RELAX)
+            gr = grid_relaxed_system(rng, case, W, kind)
+            if gr is not None:
+                bases.append((W, gr[0], gr[1], True, "relax-grid", kind, gr[2], gr[3]))
+        rng.shuffle(bases)
+        for W, b, pf, stable, origin, kind, beta, betav in bases[:9]:
+            ex = lp_oracle.is_exhaustive_alloc(names, case.cost, case.budget, W) and rng.random() < 0.6
+            rc = None if kind is None else relaxed_costs(case, kind, beta, betav)
+            if not is_exact(conditions(case, W, b, pf, stable, ex, rc=rc)):
+                ctx.count("straddle_skipped", "base not exact")
+                continue
+            for mode in STRADDLE_MODES:
+                judge_straddle(ctx, case, W, b, pf, stable, ex, origin, mode, kind, beta, betav, lines, rlines)
+
+
+def straddle_tight_on_boundary(case: Case, W, b, pf, stable, rc):
+    """some tolerance-checked comparison of the exact system is an equality at a half-way point of the rounding grid"""
+    spent = [sum((p[c] for c in case.names), F(0)) for p in pf]
+    if any(s == b and on_boundary(b) for s in spent):
+        return True
+    rcost = case.cost if rc is None else rc
+    return any(v == rcost[c] and on_boundary(v) for c, v in lhs5(case, W, b, pf, stable).items())
+
+
+def judge_straddle(ctx, case, W, b, pf, stable, exhaustive, origin, mode, kind, beta, betav, lines, rlines):
+    rng = ctx.rng
+    bf, pff, bef, bvf = perturb(rng, case, W, b, pf, mode, beta, betav)
+    bq, pq = F(bf), [{c: F(v) for c, v in p.items()} for p in pff]
+    beq = None if bef is None else F(bef)
+    bvq = None if bvf is None else {c: F(v) for c, v in bvf.items()}
+    rcq = None if kind is None else relaxed_costs(case, kind, beq, bvq)
+    conds = conditions(case, W, bq, pq, stable, exhaustive, rc=rcq)
+    if any(v < -STRADDLE_EPS for v in conds.values()):
+        ctx.count("straddle_skipped", "perturbation beyond 1e-9")
+        return
+    rc = None if kind is None else relaxed_costs(case, kind, beta, betav)
+    ctx.count("straddle", ("tight on a rounding boundary" if straddle_tight_on_boundary(case, W, b, pf, stable, rc) else "other")
+              + ("/relaxed" if kind is not None else ""))
+    ctx.count("validator_kind", "straddle-" + mode)
+    exact_p = is_exact(conds)
+    for form in ("float", "exact"):
+        raw = form == "float"
+        if kind is None:
+            got = lib_validate(case, W, bf if raw else bq, pff if raw else pq, stable, exhaustive, raw=raw)
+        else:
+            got, _ = lib_validate_relaxed(case, W, bf if raw else bq, pff if raw else pq, stable, exhaustive, kind,
+                                          bef if raw else beq, bvf if raw else bvq, raw=raw)
+        ctx.evaluations += 1
+        ctx.count("validator_expect", "accept (straddle)")
+        cfg = {"part": "straddle", "W": W, "b": q2s(bq), "pf": [{c: q2s(v) for c, v in p.items()} for p in pq], "stable": stable,
+               "exhaustive": exhaustive, "kind": "straddle-" + mode, "origin": origin, "form": form,
+               "base_b": q2s(b), "base_pf": [{c: q2s(v) for c, v in p.items()} for p in pf],
+               "relax": kind, "beta": None if beq is None else q2s(beq), "betav": None if bvq is None else {c: q2s(v) for c, v in bvq.items()},
+               "base_beta": None if beta is None else q2s(beta), "base_betav": None if betav is None else {c: q2s(v) for c, v in betav.items()}}
+        if len(case.ballots) >= 2 and len(case.names) >= 2 and len(W) >= 1:
+            ctx.nontrivial.add((case.key(), tuple(W), q2s(bq), str(cfg["pf"]), stable, exhaustive, form, kind))
+        if got is not True:
+            sig = {"call": "validate_price_system", "kind": "complete_within", "stable": stable, "form": form}
+            if kind is not None:
+                sig["relaxation"] = RELAX_CLASS[kind]
+            ctx.violations.append({
+                "what": f"validator rejects a pair that is a floating-point error (< 1e-9) away from one that meets every condition exactly "
+                        f"({form} form, returned {got})", "case": case.to_json(), "cfg": cfg, "impl": got, "expected": True, "sig": sig})
+        if kind is None:
+            lines.append((price_line(case, W, bq, pq, stable, exhaustive), got, exact_p, case, cfg))
+        else:
+            rlines.append((relax_line(case, W, bq, pq, stable, exhaustive, kind, beq, bvq), got, exact_p, rcq, case, cfg))
 
 
 # ----------------------------------------------------------------------------------------------
@@ -608,9 +883,9 @@ def relaxed_costs(case: Case, kind, beta, betav):
     return out
 
 
-def lib_validate_relaxed(case: Case, W, b, pf, stable, exhaustive, kind, beta, betav):
-    """validate_price_system with a relaxation object whose saved beta is set to the exact numbers;
-    -> (answer, {name: R.get_relaxed_cost(project)})"""
+def lib_validate_relaxed(case: Case, W, b, pf, stable, exhaustive, kind, beta, betav, raw=False):
+    """validate_price_system with a relaxation object whose saved beta is set to the exact numbers (raw: to the numbers as
+    they are given — floats, as the search saves them);  -> (answer, {name: R.get_relaxed_cost(project)})"""
     import collections
 
     from pabutools.analysis.priceability import validate_price_system
@@ -619,20 +894,21 @@ def lib_validate_relaxed(case: Case, W, b, pf, stable, exhaustive, kind, beta, b
     inst, projs = core.build_instance(case)
     prof = core.build_profile(case, inst, projs)
     R = getattr(rel, RELAX_CLASS[kind])(inst, prof)
+    num = (lambda x: x) if raw else core.to_num
     if kind in ("mul", "add"):
-        R._saved_beta = core.to_num(beta)
+        R._saved_beta = num(beta)
     else:
         d = collections.defaultdict(int)
         for c, v in (betav or {}).items():
             if v != 0:
-                d[projs[c]] = core.to_num(v)
+                d[projs[c]] = num(v)
         R._saved_beta = {"beta": d, "sum": sum(d.values())}
         if kind == "off":
-            R._saved_beta["beta_global"] = core.to_num(beta)
-    pfl = [{projs[c]: core.to_num(p[c]) for c in case.names} for p in pf]
+            R._saved_beta["beta_global"] = num(beta)
+    pfl = [{projs[c]: num(p[c]) for c in case.names} for p in pf]
     try:
         with contextlib.redirect_stdout(io.StringIO()):
-            got = bool(validate_price_system(inst, prof, [projs[c] for c in W], core.to_num(b), pfl, stable=stable, exhaustive=exhaustive,
+            got = bool(validate_price_system(inst, prof, [projs[c] for c in W], num(b), pfl, stable=stable, exhaustive=exhaustive,
                                              relaxation=R, verbose=verbose_for(case, W, stable, exhaustive)))
         rc = {c: core.toF(R.get_relaxed_cost(projs[c])) for c in case.names}
     except Exception as e:  # noqa: BLE001
@@ -956,6 +1232,10 @@ def run(ctx):
     lines = []
     relax_validator_part(ctx, ctx.scale(25, 250), lines)
     flush_relax_model(ctx, lines)
+    lines, rlines = [], []
+    straddle_part(ctx, ctx.scale(50, 400), lines, rlines)
+    flush_model(ctx, lines)
+    flush_relax_model(ctx, rlines)
     from . import C12_mip  # the program priceable() really builds == the Lean model PriceMIP.constraints (C12MIP.lean)
 
     C12_mip.mip_part(ctx, ctx.scale(30, 400), solve_every=ctx.scale(6, 3), gen_case=gen_case, subsets=subsets, budget_s=ctx.scale(25, None))
@@ -989,6 +1269,7 @@ def search(ctx, disagreements):
     ctx.rule = RULE
     lines = []
     validator_part(ctx, 400, lines)
+    straddle_part(ctx, 200, [], [])
 
 
 def replay(payload):
@@ -1008,6 +1289,35 @@ def replay(payload):
         if broken_by_margin(conds) and got is not False:
             return False, "still fails: pair broken by >= 0.1 accepted"
         return True, f"property holds on the replayed input: validator returned {got}"
+    if part == "straddle":
+        pf = [{c: F(v) for c, v in p.items()} for p in cfg["pf"]]
+        b = F(cfg["b"])
+        kind = cfg.get("relax")
+        beta = None if cfg.get("beta") is None else F(cfg["beta"])
+        betav = None if cfg.get("betav") is None else {c: F(v) for c, v in cfg["betav"].items()}
+        base_pf = [{c: F(v) for c, v in p.items()} for p in cfg["base_pf"]]
+        base_beta = None if cfg.get("base_beta") is None else F(cfg["base_beta"])
+        base_betav = None if cfg.get("base_betav") is None else {c: F(v) for c, v in cfg["base_betav"].items()}
+        if set(base_pf[0] if base_pf else []) != set(case.names) or len(base_pf) != len(case.ballots):
+            return True, "not applicable: the stored payments do not belong to this election"
+        base_rc = None if kind is None else relaxed_costs(case, kind, base_beta, base_betav)
+        rc = None if kind is None else relaxed_costs(case, kind, beta, betav)
+        if not is_exact(conditions(case, cfg["W"], F(cfg["base_b"]), base_pf, cfg["stable"], cfg["exhaustive"], rc=base_rc)):
+            return True, "not applicable: the base system does not meet every condition exactly"
+        if any(v < -STRADDLE_EPS for v in conditions(case, cfg["W"], b, pf, cfg["stable"], cfg["exhaustive"], rc=rc).values()):
+            return True, "not applicable: the perturbed system is more than 1e-9 away"
+        raw = cfg.get("form") == "float"
+        conv = float if raw else (lambda x: x)
+        pfx = [{c: conv(v) for c, v in p.items()} for p in pf]
+        if kind is None:
+            got = lib_validate(case, cfg["W"], conv(b), pfx, cfg["stable"], cfg["exhaustive"], raw=raw)
+        else:
+            got, _ = lib_validate_relaxed(case, cfg["W"], conv(b), pfx, cfg["stable"], cfg["exhaustive"], kind,
+                                          None if beta is None else conv(beta), None if betav is None else {c: conv(v) for c, v in betav.items()},
+                                          raw=raw)
+        if got is not True:
+            return False, f"still fails: a pair within 1e-9 of an exact price system is rejected (returned {got})"
+        return True, "property holds on the replayed input: validator accepted"
     if part == "relax_validator":
         pf = [{c: F(v) for c, v in p.items()} for p in cfg["pf"]]
         b = F(cfg["b"])
